@@ -5,7 +5,7 @@
 set -e
 cd "$(dirname "$0")/.."
 mkdir -p _build evidence replay ocaml/gen
-( cd coq && coq_makefile -f _CoqProject -o Makefile >/dev/null && timeout 3000 make -k -j"$(nproc)" 2>&1 | tail -5 ) || true
+python3 tools/coqmake.py 2>&1 | tail -5 || true
 ( cd ocaml && for t in $(grep -o '^[a-z0-9_]*:' Makefile | tr -d ':' | sort -u); do make -s "$t" || true; done )
 python3 - <<'PY' || true
 import sys
